@@ -2,11 +2,11 @@ SPECIFICATION Spec
 CONSTANTS
   Modes = {"stylesheet", "inline"}
   MaxTop = 1
-  MaxUnits = 3
-  MaxDepth = 2
+  MaxUnits = 2
+  MaxDepth = 1
   MaxFeat = 1
   MaxWs = 2
-  AtKinds = {"media"}
+  AtKinds = {"media", "import", "unknown", "fontface"}
   MinAtoms = 0
   EndBias = 0
 CHECK_DEADLOCK FALSE
